@@ -65,6 +65,7 @@ var impTransList = []string{
 	"MakeErrDecimal", "ErrDecimal_Err", "ErrDecimal_update", "ErrDecimal_Mul", "ErrDecimal_Quo", "ErrDecimal_Abs",
 	"Context_integerPower",
 	"Context_Sqrt",
+	"Context_newLoop", "loop_done",
 }
 
 type cat int
@@ -86,8 +87,11 @@ const (
 	cIntPtr
 	cIntList
 	cUnit
-	cED    // ErrDecimal held by value (a local struct)
-	cEDPtr // *ErrDecimal (receiver)
+	cED      // ErrDecimal held by value (a local struct)
+	cEDPtr   // *ErrDecimal (receiver)
+	cLoop    // loop (loop.go) held by value
+	cLoopPtr // *loop
+	cString  // a string (only passed around: names for diagnostics)
 )
 
 func classify(t types.Type) cat {
@@ -103,6 +107,8 @@ func classify(t types.Type) cat {
 				return cCtx
 			case "ErrDecimal":
 				return cEDPtr
+			case "loop":
+				return cLoopPtr
 			}
 		}
 		if b, ok := u.Elem().Underlying().(*types.Basic); ok && b.Kind() == types.Int64 {
@@ -116,6 +122,8 @@ func classify(t types.Type) cat {
 			return cCtx // a Context held by value (`down := *nc`)
 		case "ErrDecimal":
 			return cED
+		case "loop":
+			return cLoop
 		case "BigInt":
 			return cBig
 		case "Condition":
@@ -136,6 +144,8 @@ func classify(t types.Type) cat {
 			return cNat
 		case u.Info()&types.IsInteger != 0:
 			return cInt
+		case u.Info()&types.IsString != 0:
+			return cString
 		}
 	case *types.Slice:
 		if classify(u.Elem()) == cInt {
@@ -179,6 +189,10 @@ func leanOf(c cat) string {
 		return "Unit"
 	case cED, cEDPtr:
 		return "ED"
+	case cLoop, cLoopPtr:
+		return "Loop"
+	case cString:
+		return "String"
 	}
 	return "sorryUnsupported"
 }
@@ -219,7 +233,7 @@ func (p iparam) lean() string {
 	case pDecIO, pDecIn:
 		return "Dec"
 	case pEDIO:
-		return "ED"
+		return leanOf(p.cat)
 	case pBigIO:
 		return "Nat"
 	case pBigIn:
@@ -616,7 +630,7 @@ func buildSigLoc(key string, fd *ast.FuncDecl, loc map[int]bool) *isig {
 			}
 		case cIntPtr:
 			p.kind = pIntIO
-		case cEDPtr:
+		case cEDPtr, cLoopPtr:
 			p.kind = pEDIO
 		case cDec, cBig, cUnknown, cUnit:
 			fail("%s: parameter %s of type %s", key, name, ty)
